@@ -53,7 +53,7 @@ var specs = map[string]spec{
 	},
 	"C03": {
 		World: "core", Level: "exploration", QuickS: 40, ThoroughS: 900,
-		Rule: "cases = 1-3 connections of kind accepted / added (nbio.Dial + AddConn) / DialAsync[Timeout] with model outcome connected, refused or never answered; each with 0-4 concurrent enders drawn from {Close, CloseWithError, peer FIN, peer close, peer reset, read deadline, write deadline with backlog, write-buffer overflow, write to a dead peer} at random delays, optional post-Close API calls, injected dup / EPOLL_CTL_ADD failures, then Engine.Stop; non-trivial = >= 2 causes on one connection, or concurrent Close calls, or a dial that did not succeed; distinct = context-switch sequence hash; 12% of the connections are UDP client connections (net.DialUDP handed to the engine with AddConn, 0-2 one-byte datagrams received first, ended by Close / CloseWithError / read deadline from one or several goroutines)",
+		Rule: "seven run indices in eight (part lifecycle): cases = 1-3 connections of kind accepted / added (nbio.Dial + AddConn) / DialAsync[Timeout] with model outcome connected, refused or never answered; each with 0-4 concurrent enders drawn from {Close, CloseWithError, peer FIN, peer close, peer reset, read deadline, write deadline with backlog, write-buffer overflow, write to a dead peer} at random delays, optional post-Close API calls, injected dup / EPOLL_CTL_ADD failures, then Engine.Stop; non-trivial = >= 2 causes on one connection, or concurrent Close calls, or a dial that did not succeed; distinct = context-switch sequence hash; 12% of the connections are UDP client connections (net.DialUDP handed to the engine with AddConn, 0-2 one-byte datagrams received first, ended by Close / CloseWithError / read deadline from one or several goroutines). One run index in eight (part udpsessions): 1-3 remotes talk to a UDP listener in 1-3 rounds each; a round opens a session (1-3 datagrams), which is ended by Close / CloseWithError from 1-3 goroutines at once, a read deadline or the engine's UDPReadTimeout; oracles: open before close and exactly one close per session object, the reported error is the cause (the engine's timeout is always a possible first cause when configured), the next round of the same address gets a new session",
 		Real: realCore, Stub: stubKernel,
 		Assumptions: append([]string{"first cause: the reported error must belong to a cause that became observable no later than the notification and was not preceded by another cause whose call had already returned; overlapping causes are all acceptable",
 			"'closed indication' = a non-nil error from Write/Writev/Sendfile, false from Execute; descriptor access is attributed by calling goroutine through the kernel model's syscall hook"}, assumeKernel...),
@@ -131,7 +131,7 @@ var specs = map[string]spec{
 	},
 	"C11": {
 		World: "e2e", Level: "exploration", QuickS: 40, ThoroughS: 900,
-		Rule: "the primary oracle is the ownership-tracking allocator installed as mempool.DefaultMemPool and as the engine's BodyAllocator: Free/Append/AppendString/Realloc on a freed or foreign buffer, second Free, write into a quarantined (poisoned, never recycled) buffer, poison in parser output or in the parser's carry-over buffer when the input has no such byte (read after free), poison on the wire. Half of the cases are single-threaded (stream scenarios): the C09 handler programs (half with transport write failures, biased to 64KiB-crossing writes), the C12 round trips (40% with sender transport failures), the C13 byzantine frame sequences, the C08 corrupted request streams through ServerProcessor/BodyReader, the C15 limit scenarios and pipelined messages in 32 random segmentations each. The other half are the close races: the C14 WebSocket scenarios (all five upgrade paths, concurrent writers, send queue, compression, resets, application close) and the C10 HTTP server scenarios (pipelining, Flush, split writes, closing exchanges) on the simulated kernel under the seeded scheduler, with the same trackers; non-trivial = at least 3 buffers were returned to the allocators in the run; distinct = fingerprint of the underlying case / schedule",
+		Rule: "the primary oracle is the ownership-tracking allocator installed as mempool.DefaultMemPool and as the engine's BodyAllocator: Free/Append/AppendString/Realloc on a freed or foreign buffer, second Free, write into a quarantined (poisoned, never recycled) buffer, poison in parser output or in the parser's carry-over buffer when the input has no such byte (read after free), poison on the wire. Half of the cases are single-threaded (stream scenarios): the C09 handler programs (half with transport write failures, biased to 64KiB-crossing writes), the C12 round trips (40% with sender transport failures), the C13 byzantine frame sequences, the C08 corrupted request streams through ServerProcessor/BodyReader, the C15 limit scenarios and pipelined messages in 32 random segmentations each; one run index in sixteen is a C01 outbound scenario (core engine write queue) with the tracker as mempool.DefaultMemPool and an OnWrittenSize hook that looks for poison in the bytes it is given. The other half are the close races: the C14 WebSocket scenarios (all five upgrade paths, concurrent writers, send queue, compression, resets, application close) and the C10 HTTP server scenarios (pipelining, Flush, split writes, closing exchanges) on the simulated kernel under the seeded scheduler, with the same trackers; non-trivial = at least 3 buffers were returned to the allocators in the run; distinct = fingerprint of the underlying case / schedule",
 		Real: []string{"nbhttp.Response / Parser / BodyReader / ServerProcessor, websocket.Conn, nbhttp.Engine, nbio.Engine / Conn write queue (transformed real code)"},
 		Stub: append([]string{"allocators: ownership tracker (the seam is the public mempool.Allocator interface); it never recycles memory, so the pool's own reuse policy is not part of these runs (C20 covers it)", "transport: in-memory connections with write-failure injection (stream scenarios), simulated kernel (e2e scenarios)"}, stubCommon...),
 		Assumptions: append([]string{"leaks (buffers never returned) are counted as a probe only; the property does not demand their absence",
